@@ -46,6 +46,7 @@ pub struct OpW {
     pub fresh_lookup: u32,
     pub iter_advance: u32,
     pub insert_batch: u32,
+    pub debug_fmt: u32,
 }
 
 impl Default for OpW {
@@ -69,6 +70,7 @@ impl Default for OpW {
             fresh_lookup: 0,
             iter_advance: 0,
             insert_batch: 0,
+            debug_fmt: 1,
         }
     }
 }
@@ -89,6 +91,10 @@ pub struct Profile {
     pub sync_plain: bool,
     pub burst_sizes: Vec<u32>,
     pub drop_unsynced: bool,
+    /// occasionally use capacities around 2^32 and weights around u32::MAX
+    pub huge: bool,
+    /// in such a case, occasionally end with a burst of 140 000 maximal-weight inserts
+    pub huge_burst: bool,
 }
 
 pub fn profile_for(prop: &str, thorough: bool) -> Profile {
@@ -105,9 +111,12 @@ pub fn profile_for(prop: &str, thorough: bool) -> Profile {
         sync_plain: false,
         burst_sizes: vec![],
         drop_unsynced: false,
+        huge: matches!(prop, "C03" | "C04" | "C08" | "C10" | "C12" | "C13"),
+        huge_burst: prop == "C08",
     };
     match prop {
         "C01" => {
+            p.w.iter_advance = 5;
             p.w.burst = 1;
             p.w.fresh_lookup = 3;
             p.burst_sizes = vec![130, 600];
@@ -124,6 +133,7 @@ pub fn profile_for(prop: &str, thorough: bool) -> Profile {
         }
         "C04" => {
             p.cap = CapMode::Bounded;
+            p.w.warm_insert = 10;
             p.w.insert = 40;
             p.w.synced_insert = 6;
         }
@@ -148,6 +158,7 @@ pub fn profile_for(prop: &str, thorough: bool) -> Profile {
             p.w.contains = 12;
         }
         "C07" => {
+            p.w.iter_advance = 5;
             p.cap = CapMode::Mixed;
             p.w.invalidate = 14;
             p.w.invalidate_all = 8;
@@ -211,6 +222,7 @@ pub fn profile_for(prop: &str, thorough: bool) -> Profile {
             p.w.iter = 0;
         }
         "C16" => {
+            p.w.debug_fmt = 8;
             p.w.iter_advance = 6;
             p.w.burst = 1;
             p.burst_sizes = vec![130, 600];
@@ -260,6 +272,7 @@ pub enum RawOp {
     IterAdvance { after: u8, sel: u8 },
     /// concurrent cache: leave the periodic-sync window, queue 2-4 inserts, then sync()
     InsertBatch { items: [(u16, u8); 4], n: u8 },
+    DebugFmt,
 }
 
 const DURS: [Option<u64>; 9] = [
@@ -334,6 +347,7 @@ fn raw_op(w: &OpW) -> BoxedStrategy<RawOp> {
     add(w.burst, (any::<u8>(), any::<u8>(), any::<bool>()).prop_map(|(n, w, gets)| RawOp::Burst { n, w, gets }).boxed());
     add(w.warm_insert, (any::<u16>(), any::<u8>(), any::<u8>()).prop_map(|(k, w, n)| RawOp::WarmInsert { k, w, n }).boxed());
     add(w.counters, Just(RawOp::Counters).boxed());
+    add(w.debug_fmt, Just(RawOp::DebugFmt).boxed());
     add(w.insert_batch, (any::<[(u16, u8); 4]>(), any::<u8>()).prop_map(|(items, n)| RawOp::InsertBatch { items, n }).boxed());
     add(w.iter_advance, (any::<u8>(), any::<u8>()).prop_map(|(after, sel)| RawOp::IterAdvance { after, sel }).boxed());
     add(w.fresh_lookup, (any::<u16>(), any::<bool>()).prop_map(|(sel, contains)| RawOp::FreshLookup { sel, contains }).boxed());
@@ -389,7 +403,11 @@ pub fn build_case(p: &Profile, rc: RawCfg, raw_ops: Vec<RawOp>) -> Case {
         CapMode::Mixed => unreachable!(),
     };
     let cap_for_table = if cap_choice == 1 { Some(small.max(if p.sync_plain { 1 } else { 0 })) } else { None };
-    let table = weight_table(cap_for_table);
+    // rare: numeric boundaries of the weight (u32) and capacity (u64) types
+    let huge = p.huge && weigher == WeigherKind::Value && rc.cap_slack % 24 == 5 && cap_choice == 1;
+    let huge_caps: [u64; 5] = [u32::MAX as u64, 1 << 32, (1 << 32) + 5, 1 << 33, 1 << 50];
+    let huge_cap = huge_caps[idx(rc.cap_small as u32, 256, 5) as usize];
+    let table = if huge { vec![0, 1, 1 << 31, (1 << 31) + 1, u32::MAX - 1, u32::MAX, 1 << 31, u32::MAX] } else { weight_table(cap_for_table) };
     let wmap = |k: u32, w: u8| -> u32 {
         if rc.weight_by_key && !matches!(weigher, WeigherKind::None) {
             table[((k * 7 + 3) as usize) % table.len()]
@@ -505,6 +523,7 @@ pub fn build_case(p: &Profile, rc: RawCfg, raw_ops: Vec<RawOp>) -> Case {
                 push(&mut ops, Op::Insert { k, w: wmap(k, w) })
             }
             RawOp::Counters => push(&mut ops, Op::Counters),
+            RawOp::DebugFmt => push(&mut ops, Op::DebugFmt),
             RawOp::InsertBatch { items, n } => {
                 if kind == Kind::Sync {
                     ops.push(Op::EnterBeyond);
@@ -520,8 +539,12 @@ pub fn build_case(p: &Profile, rc: RawCfg, raw_ops: Vec<RawOp>) -> Case {
                 }
             }
             RawOp::IterAdvance { after, sel } => {
-                let ns = adv_choices[idx(sel as u32, 256, adv_choices.len() as u32) as usize];
-                push(&mut ops, Op::IterAdvance { after: after % 4, ns })
+                if kind == Kind::Sync && sel % 4 == 0 && !plain_sync {
+                    push(&mut ops, Op::IterInvalidateAll { after: after % 4 })
+                } else {
+                    let ns = adv_choices[idx(sel as u32, 256, adv_choices.len() as u32) as usize];
+                    push(&mut ops, Op::IterAdvance { after: after % 4, ns })
+                }
             }
             RawOp::FreshLookup { sel, contains } => {
                 if contains {
@@ -539,8 +562,15 @@ pub fn build_case(p: &Profile, rc: RawCfg, raw_ops: Vec<RawOp>) -> Case {
         extra: vec![],
         drop_unsynced: p.drop_unsynced && rc.drop_unsynced && kind == Kind::Sync,
     };
+    if huge && p.huge_burst && rc.nkeys % 4 == 0 && hasher == HasherKind::Sip {
+        case.ops.push(Op::Burst { n: 140_000, w: u32::MAX, gets: false });
+        if kind == Kind::Sync {
+            case.ops.push(Op::Sync);
+        }
+    }
     case.cfg.cap = match cap_choice {
         0 => None,
+        1 if huge => Some(huge_cap),
         1 => cap_for_table,
         2 => Some(crate::exec::weight_bound(&case)),
         _ => Some(crate::exec::weight_bound(&case) + 1 + rc.cap_slack as u64 % 7),
